@@ -6349,7 +6349,7 @@ static int32_t parseSingleResponse(uint32_t len, const unsigned char **cp,
     psAssert(plen == 0);
     res->certIdHashAlg = oi;
 
-    if ((*p++ != ASN_OCTET_STRING) ||
+    if ((end - p) < 1 || (*p++ != ASN_OCTET_STRING) ||
         getAsnLength(&p, (int32) (end - p), &glen) < 0 ||
         (uint32) (end - p) < glen)
     {
@@ -6358,7 +6358,7 @@ static int32_t parseSingleResponse(uint32_t len, const unsigned char **cp,
     res->certIdNameHash = p;
     p += glen;
 
-    if ((*p++ != ASN_OCTET_STRING) ||
+    if ((end - p) < 1 || (*p++ != ASN_OCTET_STRING) ||
         getAsnLength(&p, (int32) (end - p), &glen) < 0 ||
         (uint32) (end - p) < glen)
     {
@@ -6371,8 +6371,9 @@ static int32_t parseSingleResponse(uint32_t len, const unsigned char **cp,
 
         CertificateSerialNumber  ::=  INTEGER
      */
-    if ((*p != (ASN_CONTEXT_SPECIFIC | ASN_PRIMITIVE | 2)) &&
-        (*p != ASN_INTEGER))
+    if ((end - p) < 1 ||
+        ((*p != (ASN_CONTEXT_SPECIFIC | ASN_PRIMITIVE | 2)) &&
+         (*p != ASN_INTEGER)))
     {
         psTraceCrypto("X.509 getSerialNum failed on first bytes\n");
         return PS_PARSE_FAIL;
@@ -6396,6 +6397,11 @@ static int32_t parseSingleResponse(uint32_t len, const unsigned char **cp,
      */
     Memset(res->revocationTime, 0, sizeof(res->revocationTime));
     res->revocationReason = 0;
+    if ((end - p) < 2)
+    {
+        psTraceCrypto("OCSP CertStatus parse fail\n");
+        return PS_PARSE_FAIL;
+    }
     if (*p == (ASN_CONTEXT_SPECIFIC | ASN_PRIMITIVE | 0))
     {
         res->certStatus = 0;
@@ -6410,7 +6416,8 @@ static int32_t parseSingleResponse(uint32_t len, const unsigned char **cp,
                 revocationReason    [0]     EXPLICIT CRLReason OPTIONAL }
          */
         p += 1;
-        if (getAsnLength(&p, (int32) (end - p), &glen) < 0)
+        if (getAsnLength(&p, (int32) (end - p), &glen) < 0 ||
+            (uint32) (end - p) < glen)
         {
             psTraceCrypto("Initial parseSingleResponse parse failure\n");
             return PS_PARSE_FAIL;
@@ -6459,7 +6466,7 @@ static int32_t parseSingleResponse(uint32_t len, const unsigned char **cp,
         {
             return PS_PARSE_FAIL;
         }
-        if (*p == ASN_GENERALIZEDTIME && glen > 2)
+        if (glen > 2 && *p == ASN_GENERALIZEDTIME)
         {
             res->nextUpdate = p + 2;
             res->nextUpdateLen = glen - 2;
